@@ -150,6 +150,11 @@ func sstGenCase(r *Rng, tier string) *sstCase {
 	c := &sstCase{dcomp: r.Intn(4), icomp: r.Intn(4), wbuf: r.Pick(bufSizes), rbuf: r.Pick(bufSizes)}
 	c.bloomN = []uint64{1, 3, 10, 1000, 100000}[r.Intn(5)]
 	c.bloomP = []float64{0.5, 0.1, 0.01, 0.0001}[r.Intn(4)]
+	if c.bloomN <= 10 && r.Chance(75) {
+		// few expected elements: a low false-positive rate keeps the filter sparse, so a key that was
+		// never inserted is (almost surely) reported absent
+		c.bloomP = []float64{0.001, 0.0001, 0.000001}[r.Intn(3)]
+	}
 	c.style = sstStyles[r.Intn(len(sstStyles))]
 	// number of distinct keys
 	var n int
@@ -463,6 +468,7 @@ type sstProbe struct {
 	kind  string // get has scan from range
 	a, b  []byte
 	bloom bool
+	every int // 1+index of the written key for the "Contains on every written key" probes, else 0
 }
 
 func (p sstProbe) String() string {
@@ -703,6 +709,16 @@ func sstProbes(r *Rng, c *sstCase, acc []sstKV, bf *bloomfilter.Filter, tier str
 	for _, k := range pool {
 		ps = append(ps, sstProbe{kind: "get", a: k}, sstProbe{kind: "has", a: k, bloom: bloomOf(k)})
 	}
+	// Contains on EVERY written key (no written key is ever reported absent)
+	inPool := map[string]bool{}
+	for _, k := range pool {
+		inPool[string(k)] = true
+	}
+	for i, p := range acc {
+		if !inPool[string(p.key)] {
+			ps = append(ps, sstProbe{kind: "has", a: p.key, bloom: bloomOf(p.key), every: i + 1})
+		}
+	}
 	nScan := 6
 	if len(acc) > 100 {
 		nScan = 3
@@ -822,6 +838,15 @@ func sstIndexHasPhantom(path string, ref *sstRef) bool {
 }
 
 func sstSig(c *sstCase, ref *sstRef, cfg sstReaderCfg, p sstProbe, indexPath string, phantom *int) string {
+	// the bloom filter file itself answers "absent" for a written key (whatever the index loader)
+	if p.kind == "has" && !p.bloom {
+		if i, ok := sstFind(ref.acc, p.a); ok {
+			if uint64(i) >= c.bloomN {
+				return "bloom:false-negative-beyond-expected-elements"
+			}
+			return "bloom:false-negative"
+		}
+	}
 	switch cfg.loader {
 	case "map4", "map20":
 		n := 4
@@ -923,7 +948,22 @@ func sstCorpus() []*sstCase {
 	inner, _ := gproto.Marshal(&sProto.IndexEntry{Key: []byte("zz"), ValueOffset: 8})
 	phantom := append([]byte{9}, encodeRecordRef(inner, false)...)
 	twelve := bytes.Repeat([]byte{2}, 12)
+	// tables holding MORE records than the bloom filter was dimensioned for, through both writers:
+	// a tiny expectation with a sparse filter, and the default expectation of 1000 with 1100 small records
+	many := func(n int, bloomN uint64, p float64, simple bool) *sstCase {
+		c := &sstCase{dcomp: 2, icomp: 0, wbuf: 4096, rbuf: 4096, bloomN: bloomN, bloomP: p, style: "int", flavour: "table", simple: simple}
+		for i := 0; i < n; i++ {
+			var k [8]byte
+			binary.BigEndian.PutUint64(k[:], uint64(3*i+1))
+			c.calls = append(c.calls, sstCall{append([]byte{}, k[:]...), []byte{byte(i), byte(i >> 8)}, 'n'})
+		}
+		return c
+	}
 	return []*sstCase{
+		many(40, 3, 0.000001, false),
+		many(40, 3, 0.000001, true),
+		many(1100, 1000, 0.01, false),
+		many(1100, 1000, 0.01, true),
 		mk("short4", sstKV{[]byte("a"), []byte("1")}, sstKV{[]byte("a\x00"), []byte("2")}),                  // map_index_pad_collision
 		mk("mid20", sstKV{[]byte{1}, []byte{7}}, sstKV{twelve, []byte{8}}),                                  // disk_index_eof_in_binary_search
 		mk("short4", sstKV{[]byte{5}, []byte{1}}, sstKV{[]byte{6}, []byte{2}}, sstKV{[]byte{7}, []byte{3}}), // disk_index_range_upper_below_min
@@ -1089,13 +1129,31 @@ func sstOne(res *Result, drv *Driver, r *Rng, c *sstCase, idx int, dir string, t
 	for i, p := range ref.acc {
 		accCalls[i] = sstCall{p.key, p.val, 'n'}
 	}
-	var cfgStrs, probeStrs []string
-	for _, p := range probes {
-		probeStrs = append(probeStrs, p.String())
+	// the disk loader's lookups are slow in the model (byte-offset binary search over lists): on big tables
+	// it gets the every-written-key Contains probes for the last 120 keys and every 16th key only
+	allProbes := probes
+	var diskProbes []sstProbe
+	for _, p := range allProbes {
+		if len(ref.acc) > 400 && p.every > 0 && p.every <= len(ref.acc)-120 && p.every%16 != 0 {
+			continue
+		}
+		diskProbes = append(diskProbes, p)
 	}
+	strsOf := func(ps []sstProbe) []string {
+		out := make([]string, len(ps))
+		for i, p := range ps {
+			out[i] = p.String()
+		}
+		return out
+	}
+	var cfgStrs []string
 	var implOuts []string
 	phantom := -1
 	for _, cfg := range cfgs {
+		probes := allProbes
+		if cfg.loader == "disk" {
+			probes = diskProbes
+		}
 		cfgStrs = append(cfgStrs, cfg.modelString())
 		res.Stat("loader:" + cfg.loader)
 		width := 0
@@ -1164,21 +1222,41 @@ func sstOne(res *Result, drv *Driver, r *Rng, c *sstCase, idx int, dir string, t
 		_ = rd.Close()
 		implOuts = append(implOuts, strings.Join(outs, " "))
 	}
-	// model: open (write accepted) under the same configurations and probes
-	m, err = drv.Ask(fmt.Sprintf("sst.read dcomp=%d icomp=%d doracle=%s ioracle=%s calls=%s cfgs=%s probes=%s", c.dcomp, c.icomp, dor, ior,
-		c.callsString(accCalls), strings.Join(cfgStrs, ","), strings.Join(probeStrs, ",")))
-	if err != nil {
-		return err
-	}
-	mParts := strings.Split(m, " || ")
-	if len(mParts) != len(implOuts) {
-		res.Cmp(idx, "sst.read", m, strings.Join(implOuts, " || "), cs)
+	// model: open (write accepted) under the same configurations and probes (the disk configuration is
+	// always the last one and has its own probe list)
+	ask := func(cfgIdx []int, ps []sstProbe) error {
+		var cs2 []string
+		for _, i := range cfgIdx {
+			cs2 = append(cs2, cfgStrs[i])
+		}
+		probeStrs := strsOf(ps)
+		m, err := drv.Ask(fmt.Sprintf("sst.read dcomp=%d icomp=%d doracle=%s ioracle=%s calls=%s cfgs=%s probes=%s", c.dcomp, c.icomp, dor, ior,
+			c.callsString(accCalls), strings.Join(cs2, ","), strings.Join(probeStrs, ",")))
+		if err != nil {
+			return err
+		}
+		mParts := strings.Split(m, " || ")
+		if len(mParts) != len(cfgIdx) {
+			res.Cmp(idx, "sst.read", m, "<"+strings.Join(cs2, ",")+">", cs)
+			return nil
+		}
+		for k, i := range cfgIdx {
+			what := cs + " probes=" + strings.Join(probeStrs, ",")
+			res.Cmp(idx, "sst.read("+cfgs[i].modelString()+")", mParts[k], implOuts[i], what)
+		}
 		return nil
 	}
-	for i := range mParts {
-		res.Cmp(idx, "sst.read("+cfgs[i].modelString()+")", mParts[i], implOuts[i], cs+" probes="+strings.Join(probeStrs, ","))
+	var mem []int
+	for i := range cfgs {
+		mem = append(mem, i)
 	}
-	return nil
+	if len(diskProbes) == len(allProbes) {
+		return ask(mem, allProbes)
+	}
+	if err := ask(mem[:len(mem)-1], allProbes); err != nil {
+		return err
+	}
+	return ask(mem[len(mem)-1:], diskProbes)
 }
 
 func clipS(s string, n int) string {
